@@ -608,7 +608,12 @@ class LSMTree(Entity):
             for sst in overlapping:
                 if sst in self._levels[target_level]:
                     self._levels[target_level].remove(sst)
-            self._levels[target_level].append(new_sst)
+            if target_level == source_level:
+                # Merged within the deepest level: every run still in it was
+                # added during the write latency and is newer than the merge
+                self._levels[target_level].insert(0, new_sst)
+            else:
+                self._levels[target_level].append(new_sst)
 
         self._total_compactions += 1
         logger.debug(
